@@ -10,6 +10,7 @@ package harness
 
 import (
 	"context"
+	"io"
 	"fmt"
 	"math/rand/v2"
 	"sort"
@@ -155,6 +156,8 @@ type World struct {
 	idle             bool
 
 	started        bool
+	capReason      string
+	bootedInc      int
 	drawTrace      []uint64
 	clientsRunning int
 	notes          []string
@@ -311,6 +314,7 @@ func (w *World) crash() {
 }
 
 var TraceDraws bool
+var TraceEnabled io.Writer
 
 type enabledItem struct {
 	key string
@@ -360,19 +364,28 @@ func (w *World) Run() {
 		}
 		if w.step >= w.cfg.MaxSteps {
 			w.note("step cap reached")
+			w.capReason = "steps"
 			return
 		}
 		if time.Since(w.start) > w.cfg.MaxSimTime {
 			w.note("sim time cap reached")
+			w.capReason = "time"
 			return
 		}
 		items := w.enabledList()
 		w.step++
 		// re-pin the runtime's random sequence at every step: draws made by lazily
 		// initialised process-wide state (first run only) cannot shift later steps
-		simSetPinRand((uint64(w.cfg.Seed)*0x9e3779b97f4a7c15 + uint64(w.step)*0xbf58476d1ce4e5b9) | 1)
+		simSetPinRand(mix64(uint64(w.cfg.Seed)*0x9e3779b97f4a7c15+uint64(w.step)*0xbf58476d1ce4e5b9) | 1)
 		if TraceDraws {
 			w.drawTrace = append(w.drawTrace, simGetPinCount())
+		}
+		if TraceEnabled != nil {
+			ks := make([]string, len(items))
+			for i, it := range items {
+				ks[i] = it.key
+			}
+			fmt.Fprintf(TraceEnabled, "seed=%d step=%d ev=%d enabled=%v\n", w.cfg.Seed, w.step, len(w.events), ks)
 		}
 		ch := w.choose(items)
 		if w.diverged != "" {
@@ -544,4 +557,32 @@ func (w *World) isDead() bool {
 	w.mu.Lock()
 	defer w.mu.Unlock()
 	return w.dead
+}
+
+func (w *World) stallCount() int {
+	w.mu.Lock()
+	defer w.mu.Unlock()
+	return w.faultFired["stall"]
+}
+
+// worldParked counts parked seam calls of the live incarnation (client waits excluded).
+func (w *World) worldParked() int {
+	w.mu.Lock()
+	defer w.mu.Unlock()
+	n := 0
+	for _, p := range w.parked {
+		if p.world {
+			n++
+		}
+	}
+	return n
+}
+
+func mix64(x uint64) uint64 {
+	x ^= x >> 30
+	x *= 0xbf58476d1ce4e5b9
+	x ^= x >> 27
+	x *= 0x94d049bb133111eb
+	x ^= x >> 31
+	return x
 }
